@@ -1081,10 +1081,18 @@ func genAccessFacts(repo, out string) error {
 	var b bytes.Buffer
 	b.WriteString("(* GENERATED by gen/c09_access.go from the repository's working tree — do not edit.\n")
 	b.WriteString("   Access summaries of the shared types anchored by property C09 (data only). *)\n")
-	b.WriteString("From Coq Require Import List String.\nImport ListNotations.\nOpen Scope string_scope.\nFrom Zap Require Import C09.Sem.\n\n")
-	b.WriteString("Definition units : list (string * code nat) := [\n")
+	b.WriteString("From Coq Require Import List String.\nFrom Coq.Strings Require Import Byte.\nImport ListNotations.\nOpen Scope string_scope.\nFrom Zap Require Import C09.Sem.\n\n")
+	b.WriteString("(* names are byte lists (the extracted model must not mention Coq's string type) *)\n")
+	b.WriteString("Definition units : list (list byte * code nat) := [\n")
 	for i, u := range units {
-		fmt.Fprintf(&b, "  (%q,\n   ", u.name)
+		fmt.Fprintf(&b, "  ((* %s *) [", u.name)
+		for j := 0; j < len(u.name); j++ {
+			if j > 0 {
+				b.WriteString("; ")
+			}
+			fmt.Fprintf(&b, "x%02x", u.name[j])
+		}
+		b.WriteString("],\n   ")
 		c09render(&b, u.code)
 		b.WriteString(")")
 		if i+1 < len(units) {
